@@ -1240,6 +1240,8 @@ where
     /// Send all stored packets for retransmission
     fn send_stored(&mut self) -> Vec<GenericEvent<PacketIdType>> {
         let mut events = Vec::new();
+        // Retransmitted packets are in-flight exchanges of this connection
+        let mut resent: u16 = 0;
         self.store.for_each(|packet| {
             if packet.size() > self.maximum_packet_size_send as usize {
                 let packet_id = packet.packet_id();
@@ -1250,12 +1252,16 @@ where
                 events.push(GenericEvent::NotifyPacketIdReleased(packet_id));
                 return false; // Remove from store
             }
+            resent = resent.saturating_add(1);
             events.push(GenericEvent::RequestSendPacket {
                 packet: packet.clone().into(),
                 release_packet_id_if_send_error: None,
             });
             true // Keep in store
         });
+        if self.publish_send_max.is_some() {
+            self.publish_send_count = resent;
+        }
 
         events
     }
@@ -1721,7 +1727,7 @@ where
         // Check receive_maximum for sending (QoS 1 and 2 packets)
         if packet.qos() == Qos::AtLeastOnce || packet.qos() == Qos::ExactlyOnce {
             if let Some(max) = self.publish_send_max {
-                if self.publish_send_count == max {
+                if self.publish_send_count >= max {
                     events.push(GenericEvent::NotifyError(MqttError::ReceiveMaximumExceeded));
                     if let Some(packet_id) = packet_id_opt {
                         if self.pid_man.is_used_id(packet_id) {
@@ -3083,7 +3089,7 @@ where
                         events.push(GenericEvent::NotifyPacketIdReleased(packet_id));
                     }
                     if self.publish_send_max.is_some() {
-                        self.publish_send_count -= 1;
+                        self.publish_send_count = self.publish_send_count.saturating_sub(1);
                     }
                     events.extend(self.refresh_pingreq_recv());
                     events.push(GenericEvent::NotifyPacketReceived(packet.into()));
@@ -3157,7 +3163,7 @@ where
                             events.push(GenericEvent::NotifyPacketIdReleased(packet_id));
                         }
                         if self.publish_send_max.is_some() {
-                            self.publish_send_count -= 1;
+                            self.publish_send_count = self.publish_send_count.saturating_sub(1);
                         }
                     }
                     events.extend(self.refresh_pingreq_recv());
@@ -3287,7 +3293,7 @@ where
                         events.push(GenericEvent::NotifyPacketIdReleased(packet_id));
                     }
                     if self.publish_send_max.is_some() {
-                        self.publish_send_count -= 1;
+                        self.publish_send_count = self.publish_send_count.saturating_sub(1);
                     }
                     events.extend(self.refresh_pingreq_recv());
                     events.push(GenericEvent::NotifyPacketReceived(packet.into()));
